@@ -43,30 +43,43 @@ def handleCoproc (line : String) : String :=
   | [req, res] =>
     match req.splitOn " | " with
     | [hd, opsS] =>
-      match words hd with
+      -- optional fifth word `p=aaaa,bbbb,..`: addresses of output ports (the outermost layer: a program's store to one of
+      -- them goes to the port and nowhere else)
+      let hw := words hd
+      let ports : List Addr := match hw.getD 4 "" |>.splitOn "=" with
+        | ["p", l] => (l.splitOn ",").filterMap parseAddr
+        | _ => []
+      match hw.take 4 with
       | [_, spec, flagsS, baseS] =>
         match docMachine spec, flagsS.toNat?, parseAddr baseS with
         | some k, some flags, some base =>
-          let ops := (words opsS).filterMap fun w => match w.splitOn "=" with
-            | [a, v] => do some (← parseAddr a, ← parseByte v)
+          -- `Laaaa=vv`: a store through the linear view of the memory below the coprocessor layer (no unit reacts)
+          let ops : List (Bool × Addr × Byte) := (words opsS).filterMap fun w =>
+            let direct := w.startsWith "L"
+            match (if direct then (w.drop 1).toString else w).splitOn "=" with
+            | [a, v] => do some (direct, ← parseAddr a, ← parseByte v)
             | _ => none
           let go := words res
           if ops.length != go.length then "bad" else
           let fl : Byte := BitVec.ofNat 8 flags
           -- Impl model
-          let (_, outsI) := ops.foldl (fun (acc : Option MemState × List String) (op : Addr × Byte) =>
+          let (_, outsI) := ops.foldl (fun (acc : Option MemState × List String) (op : Bool × Addr × Byte) =>
             match acc.1 with
             | none => (none, acc.2 ++ ["?"])
             | some s =>
-              match cfgStore k fl base s op.1 op.2 with
+              match (if op.1 then storeB k s op.2.1 op.2.2
+                     else if ports.contains op.2.1 then some s
+                     else cfgStore k fl base s op.2.1 op.2.2) with
               | none => (some s, acc.2 ++ ["!"])   -- a faulting store: the harness goes on with the same memory
               | some s' => match read8 k s' base with
                 | some (str, s'') => (some s'', acc.2 ++ [str])
                 | none => (some s', acc.2 ++ ["!"])) (some (initState k), [])
           -- specification (plain RAM machines with the block in one page only)
           let flat := spec == "Linear64K" && base.toNat % 256 + 0x17 ≤ 255
-          let (_, outsS) := ops.foldl (fun (acc : Flat × List String) (op : Addr × Byte) =>
-            let m' := specStep flags base.toNat acc.1 op.1.toNat op.2.toNat
+          let (_, outsS) := ops.foldl (fun (acc : Flat × List String) (op : Bool × Addr × Byte) =>
+            let m' := if op.1 then acc.1.set op.2.1.toNat op.2.2.toNat
+                      else if ports.contains op.2.1 then acc.1
+                      else specStep flags base.toNat acc.1 op.2.1.toNat op.2.2.toNat
             (m', acc.2 ++ [String.join ((List.range 8).map fun i => toHex 2 (m'.get ((base.toNat + 16 + i) % 65536)))])) ([], [])
           let d := if outsI == go then "agree" else "DIFF coproc"
           let v := if !flat || outsS == go then "specok" else s!"VIOL C16:results@flags={flags}:base={baseS}"
